@@ -22,7 +22,7 @@ ASSUMPTIONS = [
 ]
 BUDGET = {"quick": (16, 800), "thorough": (16, 30000)}
 
-TOKEN = re.compile(r"^[!#$%&'*+\-.^_`|~0-9a-zA-Z]+$")
+TOKEN = re.compile(r"^[!#$%&'*+\-.^_`|~0-9a-zA-Z]+\Z")
 HOP = {"connection", "keep-alive", "proxy-authenticate", "proxy-authorization", "te", "trailers", "transfer-encoding",
        "upgrade", "server", "date"}
 BAD = ["\r", "\n", "\x00", "\r\n", "\r\nX-Evil: 1", "\nX-Evil: 1", "\r\n\r\nHTTP/1.1 200 OK\r\n\r\n", "\x00x"]
@@ -101,11 +101,11 @@ def forbidden(status, headers):
     return None
 
 
-PRINT = re.compile(r"^[ -~]*$")
+PRINT = re.compile(r"^[ -~]*\Z")
 
 
 def plainly_valid(status, headers):
-    if not re.match(r"^[1-5][0-9][0-9] [ -~]*$", status):
+    if not re.match(r"^[1-5][0-9][0-9] [ -~]*\Z", status):
         return False
     for k, v in headers:
         if not TOKEN.match(k) or not PRINT.match(v):
